@@ -1294,7 +1294,6 @@ func isMadeTerm(t string) bool {
 	return false
 }
 
-
 // ---- sign reasoning over comparisons of one term with zero ----
 //
 // `diff := a - b; if diff < 0 { diff = -diff }; if diff <= 0 { return }` (an absolute value written out) tests the same
@@ -1360,7 +1359,6 @@ func signDecide(preds map[string]bool, atom string) (bool, bool) {
 	}
 	return false, false
 }
-
 
 func derefType(t types.Type) types.Type {
 	if p, ok := t.Underlying().(*types.Pointer); ok {
